@@ -128,6 +128,18 @@ impl ClientOperation {
     }
 }
 
+#[cfg(feature = "verif")]
+impl ClientOperation {
+    pub(crate) fn verif_packet_id(&self) -> Option<u16> { self.packet_id }
+    pub(crate) fn verif_is_user(&self) -> bool { self.options.is_some() }
+}
+
+#[cfg(feature = "verif")]
+impl OperationTimeoutRecord {
+    pub(crate) fn verif_id(&self) -> u64 { self.id }
+    pub(crate) fn verif_timeout(&self) -> Instant { self.timeout }
+}
+
 // Most received packets stay internal or are routed to an operation's result channel.  But
 // Connack, Publish, and Disconnect are all surfaced to the user through the client.
 #[cfg_attr(feature = "testing", derive(Eq, PartialEq, Debug))]
